@@ -18,7 +18,8 @@ RULE = ('batches of seeded random inputs per class: Euler triples with roll/head
         '|pitch|<90 (generic, near-singular 85..89.9, axis-aligned specials, stacked vs single), rotation '
         'vectors log-uniform in [1e-12, pi] plus a dense cluster on both sides of |rv|^2 = 1e-6 and exact '
         'zero / pi; non-trivial = not axis-aligned and not one of ~20 sigma-30-degree triples; distinct = '
-        'distinct inputs')
+        'distinct inputs'
+        ' Round 4: the attitude block of the output transform up to a thousandth of a degree from pitch +-90 (finite-difference step and tolerance scaled with cos(pitch)).')
 ASSUMPTIONS = ['mpmath at 40 digits is exact relative to float64',
                'round-trip tolerance scales with 1/cos(pitch) (conditioning of Euler extraction)']
 REQUIRED_OBS = ['phi_block_near_singular', 'euler_matrix_mp', 'euler_matrix_float', 'sign_probes', 'roundtrip', 'rotvec_mp',
